@@ -273,8 +273,15 @@ func xlate(repo string) string {
 	if err != nil {
 		xfail("%v", err)
 	}
-	classOf := func(name string) [256]bool {
+	var classOf func(name string) [256]bool
+	depth := 0
+	classOf = func(name string) [256]bool {
 		var cls [256]bool
+		depth++
+		defer func() { depth-- }()
+		if depth > 8 {
+			xfail("README: recursive definition of <%s>", name)
+		}
 		re := regexp.MustCompile(`(?m)^<` + name + `> ::= (.*)$`)
 		m := re.FindSubmatch(readme)
 		if m == nil {
@@ -290,6 +297,18 @@ func xlate(repo string) string {
 					cls[c] = true
 				}
 				i += 5
+			case line[i] == '<': // a reference to another class, e.g. <any> ::= <char> | ...
+				j := strings.IndexByte(line[i:], '>')
+				if j < 0 {
+					xfail("README: definition of <%s> not understood at %q", name, line[i:])
+				}
+				sub := classOf(line[i+1 : i+j])
+				for c := range sub {
+					if sub[c] {
+						cls[c] = true
+					}
+				}
+				i += j + 1
 			case line[i] == '"':
 				j := i + 1
 				for j < len(line) && line[j] != '"' {
